@@ -405,6 +405,19 @@ def scope_cases(names):
             cs.append(('let m = module {%s = 2} => { let res = mod.%s; };\nlet i = m{};\n%slet leak = %s;' % (n, n, G, n), None))
             cs.append(('let m = module {%s = 2} => { let res = %s; };\n%slet i = m{};' % (n, n, G), None))      # a parameter is reached through `mod` only
             cs.append(('let m = module {p = 2} => { let %s = mod.p; };\nlet i = m{};\n%slet leak = mod;' % (n, G), None))
+            # nested modules: a local of the OUTER module body declared after / before / inside a nested module expression stays local,
+            # also when a top-level binding of the same name has another type (the type checker must not see it at file level either)
+            if n != 'item':
+                cs.append(('let %s = "s";\n%slet m = module {p = 2} => { let inner = module {q = 1} => { let a = mod.q; }; let %s = mod.p + 1; };\nlet i = m{};\nlet after = %s + "!";' % (n, G, n, n),
+                           {'after': '"s!"'}))
+                cs.append(('let %s = "s";\n%slet m = module {p = 2} => { let %s = mod.p + 1; let inner = module {q = 1} => { let a = mod.q; }; let zz9 = %s + 1; };\nlet i = m{};\nlet after = %s + "!";' % (n, G, n, n, n),
+                           {'after': '"s!"'}))
+                cs.append(('let %s = "s";\n%slet m = module {p = 2} => { let inner = module {q = 1} => { let %s = mod.q; }; let j = inner{}; let c = j.%s + mod.p; };\nlet i = m{};\nlet after = %s + "!";' % (n, G, n, n, n),
+                           {'after': '"s!"'}))
+                cs.append(('let %s = "s";\n%slet m = module {p = 2} => { let f = func(w) => module {q = w} => { let a = mod.q; }; let %s = mod.p + 1; };\nlet i = m{};\nlet after = %s + "!";' % (n, G, n, n),
+                           {'after': '"s!"'}))
+                cs.append(('let m = module {p = 2} => { let inner = module {q = 1} => { let a = mod.q; }; let %s = mod.p + 1; };\nlet i = m{};\n%slet leak = %s;' % (n, G, n), None))
+                cs.append(('let m = module {p = 2} => { let inner = module {q = 1} => { let %s = mod.q; }; let leak = %s; };\n%slet i = m{};' % (n, n, G), None))
             # rebinding, whatever the two bindings are
             kinds = ['let %s = 1;', 'let %s = "s";', 'let %s = func(z) => z;', 'let %s = module {p = 1} => { let w = mod.p; };', 'constraint %s = 1;',
                      'let %s = NULL;', 'let %s = {};', 'let %s = [];', 'let %s = false;', 'let %s = 0;', 'let %s = "";']
@@ -477,7 +490,7 @@ def check_scope(mode, cs, name, bound):
 SCOPE_BOUND = ('%d names x gaps of 0..2 unrelated statements x templates: function referring to a later / earlier binding (direct, in a tuple field, through another function), '
                'parameter equal to an earlier / later top-level name, parameter / map / filter / reduce parameter / `item` / module local / module parameter / `mod` used after the call, '
                "callee using the caller's parameter, module body using a file binding or function defined before / after it, all 25 pairs of {let value, let string, let func, let module, constraint} "
-               'rebinding one name, rebinding inside a module; parameter equal to an enclosing function\'s / callback\'s parameter or to a top-level binding of another type; `item` after nested formats and formats inside functions and map callbacks (unbound stays unbound, bound keeps its value, a later `let item` succeeds); each invisible-name program has a visible twin whose values are checked')
+               'rebinding one name, rebinding inside a module; module locals declared after / before / inside a nested module expression against a top-level binding of another type; parameter equal to an enclosing function\'s / callback\'s parameter or to a top-level binding of another type; `item` after nested formats and formats inside functions and map callbacks (unbound stays unbound, bound keeps its value, a later `let item` succeeds); each invisible-name program has a visible twin whose values are checked')
 
 
 def names_for(tier, seed):
